@@ -4,6 +4,7 @@ CONSTANTS
   Scans = 2
   SaveMask = TRUE
   MaxFaults = 2
+  OneShot = FALSE
   CountInsideIf = FALSE
 INVARIANTS NeverKilled MaskRestored HandlerCoversBody CountExact InstalledIffUsed NonNegative
 PROPERTY AllDone
